@@ -499,3 +499,76 @@ def check_fmt_spec(ctx, unit):
             starts.add(canon(ss.args[0]).split("#")[0])
         ctx.inst("T.fmt-conversions", "frg::detail_::format_object: echo sites", len(echo) == 3 and len(starts) == 1, f.loc,
                  "%d echo sites, start expressions %s" % (len(echo), sorted(starts)), f)
+
+
+def check_pop_arg(ctx, unit):
+    """printf's positional-argument cache (pop_arg): the cache index is a real position, and the count of
+    arguments already pulled from the va_list never goes down (lowering it makes a later directive pull
+    arguments the caller never supplied)."""
+    ctx.rule("B.arg-cache-index", "pop_arg: every use of opts->arg_pos as an index into the argument cache is dominated by "
+             "arg_pos != -1 (the 'no position' sentinel)", 3)
+    ctx.rule("E.arg-count-monotone", "pop_arg: vsp->num_args is only incremented, or assigned under a test that the new value "
+             "is larger (re-reading a lower position must not shrink the number of arguments already consumed)", 3)
+    fs = [f for f in unit.functions if f.uq == "frg::pop_arg"]
+    if not fs:
+        raise AnalysisBroken("anchor vanished: pop_arg")
+    for f in fs:
+        ta = f.get("targs", "").strip("<>")
+        uses = [n for n in f.events() if n.kind == "MemberExpr" and n.m == "arg_pos"]
+        bad = []
+        nidx = 0
+        for n in uses:
+            # is this read inside a condition? then it is the test itself
+            par = f.parent(n)
+            inside_cond = False
+            q = n
+            hops = 0
+            while q is not None and hops < 12:
+                if any(b.cond == q.id for b in f.blocks.values()):
+                    inside_cond = True
+                q = f.parent(q)
+                hops += 1
+            if inside_cond:
+                # loop bound `i <= arg_pos` counts as an index use too, but it is harmless when arg_pos is -1
+                continue
+            nidx += 1
+            ok = False
+            for cond, truth in flow.facts_at(f, n.id):
+                c, t = cond.strip(), truth
+                while c.kind == "UnaryOperator" and c.op == "!":
+                    c, t = c.children[0].strip(), not t
+                if c.kind == "BinaryOperator" and c.op in ("==", "!=") and any(x.kind == "MemberExpr" and x.m == "arg_pos" for x in c.walk()):
+                    k = [x.strip().cv() for x in c.children]
+                    if -1 in k and ((c.op == "==" and not t) or (c.op == "!=" and t)):
+                        ok = True
+                if c.kind == "BinaryOperator" and c.op in (">=", ">") and t and any(x.kind == "MemberExpr" and x.m == "arg_pos" for x in c.children[0].walk()):
+                    ok = True
+            if not ok:
+                bad.append(n.loc)
+        ctx.inst("B.arg-cache-index", "frg::pop_arg<%s>" % ta, not bad and nidx > 0, bad[0] if bad else f.loc,
+                 ("arg_pos is used as a cache position at %s without having been compared against -1" % bad[0]) if bad else
+                 "%d index uses, all under arg_pos != -1" % nidx, f)
+        bad = []
+        nw = 0
+        for n in f.events():
+            w = write_of(n)
+            if not (w and w[0] and w[0][-1] == "num_args"):
+                continue
+            nw += 1
+            if n.kind == "UnaryOperator" and n.op == "++":
+                continue
+            if n.kind == "BinaryOperator" and n.op == "=":
+                # must be dominated by a comparison between num_args and the assigned quantity
+                ok = False
+                for cond, truth in flow.facts_at(f, n.id):
+                    c = cond.strip()
+                    if c.kind == "BinaryOperator" and c.op in ("<", "<=", ">", ">=") and \
+                            any(x.kind == "MemberExpr" and x.m == "num_args" for x in c.walk()) and \
+                            any(x.kind == "MemberExpr" and x.m == "arg_pos" for x in c.walk()):
+                        ok = True
+                if not ok:
+                    bad.append(n.loc)
+        ctx.inst("E.arg-count-monotone", "frg::pop_arg<%s>" % ta, not bad and nw > 0, bad[0] if bad else f.loc,
+                 ("num_args is overwritten at %s without a test that it grows: a directive naming a lower position shrinks "
+                  "the count and the next positional directive reads past the supplied arguments" % bad[0]) if bad else
+                 "%d writes of num_args, all increments or guarded" % nw, f)
